@@ -57,6 +57,106 @@ theorem C19_cpdr (len : UInt16) (a : Arch) :
   obtain ⟨k, h0, h1, h2, h3, h4⟩ := cpLoop_spec false 65536 a (blockCount_le _)
   exact ⟨k, h0, h1, by simp only [exec, cpRepeat]; rw [h2], h3, h4⟩
 
+/-! ### The hardware's view: one single step per fetch, PC held on the instruction until the loop ends
+
+On the part, LDIR/LDDR/CPIR/CPDR execute ONE LDI/LDD/CPI/CPD per fetch and, while the loop has to go on, leave PC on
+the instruction so that it is fetched again; only the last iteration moves PC past it.  The interpreter collapses
+the loop into one `execute`.  The two views give the same machine state. -/
+
+/-- one fetch of LDIR/LDDR on the part -/
+def ldRefetch (up : Bool) (len : UInt16) (a : Arch) : Arch :=
+  let a' := ldStep up a
+  if a'.reg.getBC = 0 then a'.setPC (a.reg.pc + len) else a'
+
+/-- one fetch of CPIR/CPDR on the part -/
+def cpRefetch (up : Bool) (len : UInt16) (a : Arch) : Arch :=
+  let a' := cpStep up a
+  if cpStops a' then a'.setPC (a.reg.pc + len) else a'
+
+theorem ldStep_pc (up : Bool) (a : Arch) : (ldStep up a).reg.pc = a.reg.pc := rfl
+theorem cpStep_pc (up : Bool) (a : Arch) : (cpStep up a).reg.pc = a.reg.pc := rfl
+
+theorem iter_ldStep_pc (up : Bool) (n : Nat) (a : Arch) : (iter (ldStep up) n a).reg.pc = a.reg.pc := by
+  induction n generalizing a with
+  | zero => rfl
+  | succ n ih => simp only [iter]; rw [ih, ldStep_pc]
+
+theorem iter_cpStep_pc (up : Bool) (n : Nat) (a : Arch) : (iter (cpStep up) n a).reg.pc = a.reg.pc := by
+  induction n generalizing a with
+  | zero => rfl
+  | succ n ih => simp only [iter]; rw [ih, cpStep_pc]
+
+theorem ld_refetch_aux (up : Bool) (len : UInt16) (n : Nat) (a : Arch) (hn : blockCount a.reg.getBC = n) :
+    iter (ldRefetch up len) n a = (iter (ldStep up) n a).setPC (a.reg.pc + len) ∧
+    ∀ j, j < n → iter (ldRefetch up len) j a = iter (ldStep up) j a := by
+  induction n generalizing a with
+  | zero => have := blockCount_pos a.reg.getBC; omega
+  | succ n ih =>
+    by_cases hz : (ldStep up a).reg.getBC = 0
+    · have h1 : blockCount a.reg.getBC = 1 := blockCount_one _ (by rw [← ldStep_bc up a]; exact hz)
+      have : n = 0 := by omega
+      subst this
+      refine ⟨by simp only [iter, ldRefetch, hz, ↓reduceIte], fun j hj => ?_⟩
+      have : j = 0 := by omega
+      subst this; rfl
+    · have hr : ldRefetch up len a = ldStep up a := by simp only [ldRefetch, hz, ↓reduceIte]
+      have hb := ldStep_bc up a
+      have hz' := hz; rw [hb] at hz'
+      have hc := blockCount_pred _ hz'
+      have ⟨i1, i2⟩ := ih (ldStep up a) (by rw [hb]; omega)
+      refine ⟨by simp only [iter]; rw [hr, i1, ldStep_pc], fun j hj => ?_⟩
+      cases j with
+      | zero => rfl
+      | succ j => simp only [iter]; rw [hr]; exact i2 j (by omega)
+
+theorem cp_refetch_aux (up : Bool) (len : UInt16) (k : Nat) (a : Arch) (hk : 0 < k)
+    (hs : cpStops (iter (cpStep up) k a) = true)
+    (hn : ∀ j, 0 < j → j < k → cpStops (iter (cpStep up) j a) = false) :
+    iter (cpRefetch up len) k a = (iter (cpStep up) k a).setPC (a.reg.pc + len) ∧
+    ∀ j, j < k → iter (cpRefetch up len) j a = iter (cpStep up) j a := by
+  induction k generalizing a with
+  | zero => omega
+  | succ k ih =>
+    by_cases h0 : k = 0
+    · subst h0
+      have : cpStops (cpStep up a) = true := hs
+      refine ⟨by simp only [iter, cpRefetch, this, ↓reduceIte], fun j hj => ?_⟩
+      have : j = 0 := by omega
+      subst this; rfl
+    · have h1 : cpStops (cpStep up a) = false := hn 1 (by omega) (by omega)
+      have hr : cpRefetch up len a = cpStep up a := by simp [cpRefetch, h1]
+      have ⟨i1, i2⟩ := ih (cpStep up a) (by omega) hs (fun j hj hjk => hn (j + 1) (by omega) (by omega))
+      refine ⟨by simp only [iter]; rw [hr, i1, cpStep_pc], fun j hj => ?_⟩
+      cases j with
+      | zero => rfl
+      | succ j => simp only [iter]; rw [hr]; exact i2 j (by omega)
+
+/-- LDIR/LDDR collapsed into one `execute` = the part's `blockCount BC` fetches of the instruction; before the last
+    of them PC is still on the instruction (an interrupt taken there would resume the loop), after it PC is past it -/
+theorem C19_ld_refetch (up : Bool) (len : UInt16) (a : Arch) :
+    iter (ldRefetch up len) (blockCount a.reg.getBC) a = exec (if up then .ldir else .lddr) len a ∧
+    ∀ j, j < blockCount a.reg.getBC →
+      (iter (ldRefetch up len) j a).reg.pc = a.reg.pc ∧ iter (ldRefetch up len) j a = iter (ldStep up) j a := by
+  have ⟨h1, h2⟩ := ld_refetch_aux up len _ a rfl
+  refine ⟨?_, fun j hj => ⟨by rw [h2 j hj, iter_ldStep_pc], h2 j hj⟩⟩
+  rw [h1]; cases up <;> simp only [exec, Bool.false_eq_true, ↓reduceIte] <;> rw [ldRepeat_eq_iter]
+
+/-- CPIR/CPDR likewise: the collapsed loop is `k` fetches, `k` the first step at which a match is found or BC is 0 -/
+theorem C19_cp_refetch (up : Bool) (len : UInt16) (a : Arch) :
+    ∃ k, 0 < k ∧ k ≤ blockCount a.reg.getBC ∧
+      iter (cpRefetch up len) k a = exec (if up then .cpir else .cpdr) len a ∧
+      ∀ j, j < k → (iter (cpRefetch up len) j a).reg.pc = a.reg.pc ∧ iter (cpRefetch up len) j a = iter (cpStep up) j a := by
+  obtain ⟨k, h0, h1, h2, h3, h4⟩ := cpLoop_spec up 65536 a (blockCount_le _)
+  have ⟨i1, i2⟩ := cp_refetch_aux up len k a h0 h3 h4
+  refine ⟨k, h0, h1, ?_, fun j hj => ⟨by rw [i2 j hj, iter_cpStep_pc], i2 j hj⟩⟩
+  rw [i1]; cases up <;> simp only [exec, cpRepeat, Bool.false_eq_true, ↓reduceIte] <;> rw [h2]
+
+/-- non-vacuity: three fetches of LDIR at PC = 0x10 -/
+example :
+    let a : Arch := { bus := { mem := #[1, 2, 3, 4, 5, 6, 7, 8] }, reg := { pc := 0x10, b := 0, c := 3, h := 0, l := 0, d := 0, e := 1 } }
+    (iter (ldRefetch true 2) 2 a).reg.pc = 0x10 ∧ (iter (ldRefetch true 2) 3 a).reg.pc = 0x12 ∧
+    (iter (ldRefetch true 2) 3 a).bus.mem = #[1, 1, 1, 1, 5, 6, 7, 8] := by decide
+
 /-- non-vacuity: an overlapping forward copy of 3 bytes -/
 example :
     let a : Arch := { bus := { mem := #[1, 2, 3, 4, 5, 6, 7, 8] }, reg := { b := 0, c := 3, h := 0, l := 0, d := 0, e := 1 } }
